@@ -59,7 +59,8 @@ def real_to_complex(z, axis=0):
         h[N // 2] = 2 if N % 2 else 1
 
     z = scipy.fft.ifft(scipy.fft.fft(z, axis=axis) * h[tuple(ind)], axis=axis)
-    z *= np.exp(-1j * np.pi / 2 * np.arange(N))[tuple(ind)]
+    # exp(-1j * pi / 2 * n) cycles exactly through 1, -1j, -1, 1j
+    z *= np.array([1, -1j, -1, 1j])[np.arange(N) % 4][tuple(ind)]
 
     # Decimate signal by factor of 2 (along axis)
     dec = [slice(None)] * z.ndim
